@@ -5,10 +5,11 @@ CFG = {
                                    ("dup", "-mode dup -tier %s" % tier),
                                    ("literal", "-mode literal -tier %s" % tier),
                                    ("refill", "-mode refill -tier %s" % tier),
+                                   ("big", "-mode big -tier %s" % tier),
                                    ("random", "-mode random -tier %s" % tier)],
     "signatures": {},
     "max_report": 1,
-    "rule": "Structures: list.Queue / list.Stack (block sizes 1,2,3,4,5,64; random also 7,8) and list.SoftQueue, int payloads, "
+    "rule": "Structures: list.Queue / list.Stack (block sizes 1,2,3,4,5,64; big: 17,20,33,48,100 and 1000 in thorough; random: all of these but 1000, and 7,8) and list.SoftQueue, int payloads, "
             "EqualFunc in {==, equal mod 3, <= (asymmetric: pins the argument order equal(stored, searched); Contains differences under it are kind=fidelity)}. "
             "Every soft-queue battery starts with an aliasing probe W: take Values(), overwrite every cell of the returned slice with a sentinel, reverse it, append into its spare capacity, keep it; "
             "all observers that follow (Values, Contains, Peek, Dequeue) must be unaffected, and the next probe checks that the queue did not write into the slice it handed out earlier "
@@ -21,6 +22,9 @@ CFG = {
             "literal: every history of length n (5/7) over the property's own alphabet enqueue x | dequeue | peek | contains x, x in {1,2}; "
             "refill: for every block size, add a, remove a|a-1|a-2, refill r, drain, refill nodeSize+1, drain, for all a,r in 0..2*nodeSize+2 "
             "(the cursor is left at every offset of a block, including exactly on the boundary = the D18 situation); "
+            "big: block sizes that are neither tiny nor powers of two (a physical block length different from nodeSize shows): runs of 2*nodeSize+50 fresh values, "
+            "Contains sweep over every value ever added, complete drain checking every value, partial drains down to 0|1|nodeSize-1|nodeSize|nodeSize+1 live values and continuation, "
+            "refill patterns around nodeSize and 2*nodeSize; "
             "random: long phase-structured histories (grow / shrink / oscillate / drain to empty) crossing block boundaries in both directions. "
             "A queue/stack case is non-trivial when the model state shows at least one block allocation on a non-empty structure or refill after a boundary drain "
             "AND at least one block release (front cursor advanced to the next block / to nil, top cursor dropped to the lower block); "
